@@ -457,6 +457,28 @@ def d7_sleep_list(facts, rep):
         lds = atomics_on(fn, 'my_state', kinds=('load',))
         ok = bool(lds) and any(o['order'] == SEQ_CST for _, o in lds)
         rep.ob('D7', 'K1', fn, 'the worker loop re-reads my_state with seq_cst', ok, ', '.join(oname(o['order']) for _, o in lds))
+    # worker life-cycle word: only exchanged / compare-exchanged after construction, launch only by the CAS winner
+    for fn in facts.find(r'^tbb::detail::r1::rml::private_worker::(start_shutdown|wake_or_launch|run)$'):
+        ws = atomics_on(fn, 'my_state', kinds=('store', 'rmw', 'cas'))
+        if fn.p.endswith('::run'):
+            rep.ob('D7', 'K1', fn, 'the worker loop never writes its own life-cycle state', not ws, 'my_state written in run()')
+            continue
+        rep.ob('D7', 'K1', fn, 'the worker life-cycle state changes only by exchange / compare-exchange', bool(ws) and all(o['kind'] in ('rmw', 'cas') for _, o in ws),
+               'my_state %s: a shutdown racing a launch can lose the quit request (worker sleeps forever) or launch twice' % ', '.join(o['name'] for _, o in ws))
+        if fn.p.endswith('wake_or_launch'):
+            cas = [o for _, o in ws if o['kind'] == 'cas']
+            casn = set(o['s'] for o in cas)
+            won = edges_where(fn, lambda a, truth: truth and fn.strip(a) in casn)
+            la = calls_named(fn, ('launch',))
+            ok = bool(la) and bool(won) and all(dominated_by_edges(fn, c[0], won)[0] for c in la)
+            rep.ob('D7', 'K4', fn, 'a worker thread is launched only by the thread that won the init->starting CAS', ok, 'two launches of one worker')
+            nt = calls_named(fn, ('notify',))
+            rep.ob('D7', 'K4', fn, 'an already running worker is woken through its thread monitor', bool(nt), 'no notify for running workers')
+    for fn in facts.get(R1 + 'rml::private_worker::start_shutdown'):
+        nt = calls_named(fn, ('notify',))
+        xs = [p for p, o in atomics_on(fn, 'my_state', kinds=('rmw',))]
+        ok = bool(nt) and bool(xs) and all(every_path_passes(fn, 'entry', lambda p, e: p in set(xs), end=c[0])[0] for c in nt)
+        rep.ob('D7', 'K4', fn, 'shutdown publishes st_quit before it wakes the worker', ok, 'worker woken before the quit state is visible: it goes back to sleep')
     for fname in (R1 + 'thread_request_serializer::update', R1 + 'thread_request_serializer::set_active_num_workers'):
         for fn in facts.get(fname):
             before, info = lockset(fn, LOCKCLS)
